@@ -9,7 +9,8 @@ for s in $ids; do
   d=$PWD/seeded/$s; prop=${s%%-*}
   WT=/tmp/seedreg-$s; rm -rf $WT; git -C /repo worktree prune
   git -C /repo worktree add -q --detach $WT HEAD || { echo "$s WORKTREE-FAILED"; continue; }
-  if ! git -C $WT apply $d/patch.diff 2>/dev/null; then echo "$s DOES-NOT-APPLY"; git -C /repo worktree remove --force $WT; continue; fi
+  # (a patch made before later fix:/hook commits may need the three-way fallback)
+  if ! git -C $WT apply $d/patch.diff 2>/dev/null && ! git -C $WT apply -3 $d/patch.diff 2>/dev/null; then echo "$s DOES-NOT-APPLY"; git -C /repo worktree remove --force $WT; continue; fi
   if ! (cd $WT && go build ./... 2>/dev/null); then echo "$s DOES-NOT-BUILD"; git -C /repo worktree remove --force $WT; continue; fi
   checks=$(python3 -c "import json;print(' '.join(sorted({c.split(':')[0] for c in json.load(open('$d/meta.json'))['checks_run'].split() if c.endswith('rc=1')})))")
   [ -z "$checks" ] && checks=$prop
